@@ -25,6 +25,7 @@ type opFacts struct {
 	VarDefault        bool // a variable declares a default value
 	VarNamedID        bool // a client variable is called `id`, like the executor's own $id of child steps
 	DirectiveOnHelper bool // a client-selected field named id/__typename carries a directive (@skip/@include)
+	FragDirectiveVar  bool // a variable is used inside a directive of an inline fragment / fragment spread
 }
 
 func analyseOp(schema *ast.Schema, doc *ast.QueryDocument, op *ast.OperationDefinition) opFacts {
@@ -38,16 +39,18 @@ func analyseOp(schema *ast.Schema, doc *ast.QueryDocument, op *ast.OperationDefi
 		}
 	}
 	spreads := map[string]int{}
-	var dirs func(ds ast.DirectiveList)
-	dirs = func(ds ast.DirectiveList) {
+	var dirs func(ds ast.DirectiveList) bool
+	dirs = func(ds ast.DirectiveList) (usesVariable bool) {
 		for _, d := range ds {
 			f.Directive = true
 			for _, a := range d.Arguments {
 				if a.Value != nil && a.Value.Kind == ast.Variable {
 					f.DirectiveVariable = true
+					usesVariable = true
 				}
 			}
 		}
+		return usesVariable
 	}
 	var walk func(ss ast.SelectionSet, root bool)
 	var keysAt func(ss ast.SelectionSet, keys map[string]string, names map[string]bool)
@@ -112,10 +115,14 @@ func analyseOp(schema *ast.Schema, doc *ast.QueryDocument, op *ast.OperationDefi
 				}
 				walk(s.SelectionSet, false)
 			case *ast.InlineFragment:
-				dirs(s.Directives)
+				if dirs(s.Directives) {
+					f.FragDirectiveVar = true
+				}
 				walk(s.SelectionSet, root)
 			case *ast.FragmentSpread:
-				dirs(s.Directives)
+				if dirs(s.Directives) {
+					f.FragDirectiveVar = true
+				}
 				spreads[s.Name]++
 				if spreads[s.Name] > 1 {
 					f.MultiSpread = true
@@ -230,6 +237,7 @@ type c01ClassDef struct {
 }
 
 var c01Classes = []c01ClassDef{
+	{"directive-variable-on-kept-fragment", func(o opFacts, d dataFacts, sh bool) bool { return o.FragDirectiveVar }, []string{"invalid-subrequest/undefined-variable"}},
 	{"skipped-helper-id", func(o opFacts, d dataFacts, sh bool) bool { return o.DirectiveOnHelper }, []string{"error/missing-id", "wrong-data"}},
 	{"directive-on-flattened-selection", func(o opFacts, d dataFacts, sh bool) bool { return o.Directive }, []string{"wrong-data"}},
 	{"root-typename", func(o opFacts, d dataFacts, sh bool) bool { return o.RootTypename }, []string{"error/internal-service-url"}},
